@@ -536,17 +536,35 @@ func c11(r *Report, s *Sem) {
 		}, "resource")
 	}
 	for _, enc := range []struct{ typ, field, wire string }{{"Command", "Resource", "Resource"}, {"Message", "Content", "Content"}} {
-		fn := p.Method(enc.typ, "toRawEnvelope")
 		docF := p.Field(enc.typ, enc.field)
 		wireF := p.Field("rawEnvelope", enc.wire)
-		skipOnlyWhenNil(fn, func(v ssa.Value) bool { return pathOf(v).Last() == docF }, func(in ssa.Instruction) bool {
+		isWireStore := func(in ssa.Instruction) bool {
 			if st, ok := in.(*ssa.Store); ok {
 				if fa, ok := st.Addr.(*ssa.FieldAddr); ok && structField(fa.X.Type(), fa.Field) == wireF {
 					return true
 				}
 			}
 			return false
-		}, strings.ToLower(enc.field))
+		}
+		// the encoder(s): whichever function stores the wire member (the base type's own method, or the kinds' methods
+		// when the base part was folded into them)
+		n := 0
+		for _, fn := range p.LimeFuncs() {
+			stores := false
+			eachInstr(fn, func(in ssa.Instruction) {
+				if isWireStore(in) {
+					stores = true
+				}
+			})
+			if !stores || fn.Parent() != nil {
+				continue
+			}
+			n++
+			skipOnlyWhenNil(fn, func(v ssa.Value) bool { return pathOf(v).Last() == docF }, isWireStore, strings.ToLower(enc.field))
+		}
+		if n == 0 {
+			skipOnlyWhenNil(nil, nil, nil, strings.ToLower(enc.field)+" encoder")
+		}
 	}
 
 	// ---- R4
